@@ -402,3 +402,25 @@ Proof.
     eapply lookup_name_filter. exact Lk.
   - rewrite (Ho di' Hnd) in Nd. exists di', dv, pr, es. repeat split; assumption.
 Qed.
+
+(* after unlink the path names nothing any more *)
+Lemma lookup_name_filter_self ents name :
+  lookup_name (filter (fun e : list N * target => negb (ustr_eqb (fst e) name)) ents) name = None.
+Proof.
+  induction ents as [|[m x] r IH]; [reflexivity|]. cbn [filter fst]. destruct (ustr_eqb m name) eqn:E; cbn [negb]; [exact IH|].
+  cbn [lookup_name]. destruct (ustr_eqb name m) eqn:E2; [|exact IH].
+  apply ustr_eqb_eq in E2. subst m. rewrite (proj2 (ustr_eqb_eq name name) eq_refl) in E. discriminate.
+Qed.
+Theorem unlink_removes_name w path w' : unlink_file w path = Ok w' -> forall j, ~ names w' path j.
+Proof.
+  unfold unlink_file. destruct (resolve w (dirname path)) as [di|] eqn:Er; cbn [bind]; [|discriminate].
+  destruct (node w di) as [[dev par ents| |]|] eqn:En; try discriminate.
+  destruct (lookup_name ents (basename path)); [|discriminate].
+  intros H j [di' [dv [pr [es [R [Nd Lk]]]]]]. injection H as Hw0. symmetry in Hw0.
+  assert (C : removed w w' di dev par ents (basename path)).
+  { split; [exact En|]. split; [rewrite Hw0; reflexivity|]. split.
+    - rewrite Hw0. unfold node. cbn [w_nodes set_dirent]. eapply lookup_replace_same. exact En.
+    - intros k Hk. rewrite Hw0. unfold node. cbn [w_nodes]. apply lookup_replace_other. exact Hk. }
+  pose proof (resolve_removed w w' di dev par ents _ C _ _ R) as R'. rewrite Er in R'. inversion R'; subst di'.
+  destruct C as [_ [_ [Hd0 _]]]. rewrite Hd0 in Nd. inversion Nd; subst. rewrite lookup_name_filter_self in Lk. discriminate.
+Qed.
